@@ -192,6 +192,7 @@ pub fn check(c: &Case) -> CheckResult {
     o.class_if(mode != SRC_OVER, "non-srcover");
     o.class_if(matches!(mode, 1 | 2 | 5 | 6 | 7 | 10), "erasing-mode");
     o.class_if(!c.clips.is_empty(), "clipped");
+    o.class_if(c.w > 256 || c.h > 256, "surface-beyond-256");
     o.class_if(c.clips.iter().any(|c| matches!(c, Op::PushClipPath(_))), "clip-path");
     o.class(classify_xf(&c.xf));
     Ok(o)
@@ -216,7 +217,8 @@ pub fn src_of(op: &Op) -> Option<SrcSpec> {
 
 pub fn strategy(ctx: &Ctx) -> BoxedStrategy<Case> {
     let ctx = ctx.clone();
-    (3i32..=14, 3i32..=14)
+    // mostly small surfaces; one in twenty has rows or columns beyond 256 pixels (narrowed strides, byte counters)
+    prop_oneof![18 => (3i32..=14, 3i32..=14), 1 => (257i32..=300, 3i32..=4), 1 => (3i32..=4, 257i32..=300)]
         .prop_flat_map(move |(w, h)| {
             let free = Domain::free(w, h);
             let exact = Domain::exact(w, h);
@@ -233,7 +235,7 @@ pub fn property(ctx: &Ctx) -> Property {
     let c = ctx.clone();
     Property {
         id: "C02",
-        rule: "cases: 3..14 px surfaces with random non-empty premultiplied contents, a transform (identity / quarter translation / general invertible / singular), 0-3 clips (rects of every relation to the surface, polygon and curved paths), optionally an open layer, then exactly one drawing call of each kind (fill, fill_rect, stroke, clear, mask, draw_image_at, draw_image_with_size_at; pop_layer when a layer is open) with any of 28 modes, any source, alpha, AA mode; shapes that do not cover the surface. Oracle: before/after snapshots; every pixel of the zero-coverage set (outside a pushed clip rectangle, zero coverage in a pushed clip path, zero coverage of the shape; while a layer is open: the whole base surface) must be bit-identical. Coverage comes from the exact 4x4 model for grid polygons, otherwise from an opaque-white SrcOver render of the same geometry on a fresh surface. Non-trivial: the zero-coverage set holds >=1 pixel inside the clip bounds with non-zero previous value, and (mode != SrcOver or source not opaque solid or layer open); distinct by hash of the case.",
+        rule: "cases: 3..14 px surfaces (one in twenty 257..300 px long or tall) with random non-empty premultiplied contents, a transform (identity / quarter translation / general invertible / singular), 0-3 clips (rects of every relation to the surface, polygon and curved paths), optionally an open layer, then exactly one drawing call of each kind (fill, fill_rect, stroke, clear, mask, draw_image_at, draw_image_with_size_at; pop_layer when a layer is open) with any of 28 modes, any source, alpha, AA mode; shapes that do not cover the surface. Oracle: before/after snapshots; every pixel of the zero-coverage set (outside a pushed clip rectangle, zero coverage in a pushed clip path, zero coverage of the shape; while a layer is open: the whole base surface) must be bit-identical. Coverage comes from the exact 4x4 model for grid polygons, otherwise from an opaque-white SrcOver render of the same geometry on a fresh surface. Non-trivial: the zero-coverage set holds >=1 pixel inside the clip bounds with non-zero previous value, and (mode != SrcOver or source not opaque solid or layer open); distinct by hash of the case.",
         assumptions: vec![
             "for shapes the exact model does not cover (curves, strokes, general transforms) zero coverage is read from a white SrcOver render of the same geometry: shares the rasteriser (judged by C01/C04/C08), not the compositing route under test",
             "mask() under a singular transform is not judged here (C11 accepts either reading)",
